@@ -703,6 +703,15 @@ def compatibility_verdicts_refuse(ctx):
         o = f.node.args.args[1].arg
         cfg = CFG(f.node, m, f.module)
         name = ci.name
+        # the verdict may be delegated: `other` handed to a function these rules can not look into (a checker picked into a local,
+        # a helper that was not expanded) - what happens there is not decided here
+        handed = [c for c in calls_in(f.node) if any(isinstance(a, ast.Name) and a.id == o for a in c.args) and
+                  not (isinstance(c.func, ast.Name) and (c.func.id in ('isinstance', 'type', 'issubclass', 'repr', 'str', 'set', 'list', 'zip', 'len', 'getattr', 'hasattr')
+                                                         or c.func.id == o)) and
+                  not (isinstance(c.func, ast.Attribute) and c.func.attr in ('compatible', 'validate', 'import_value', 'format', 'append'))]
+        if handed:
+            ctx.undecided(f'{f.qualname}:verdict delegated', handed[0], f'`{src(handed[0])}` hands `{o}` to a callee these rules do not follow', f)
+            continue
         # (1) tests that mention `other`: the refusing side raises
         for t in cfg.nodes:
             if t.kind != 'test':
@@ -722,6 +731,9 @@ def compatibility_verdicts_refuse(ctx):
                             if p == 'isUTF8':
                                 violating = not self_left                                 # other.isUTF8 < self.isUTF8
                             lims.append((p, violating, op == '<'))
+                    if op in ('<', '<=') and l.startswith('len(') and r.startswith('len(') and o in l + r and 'members' in l and 'members' in r:
+                        ctx.bad(f'{f.qualname}:different arity is refused', a, f'`{src(a)}` compares the numbers of members by order: a target tuple with MORE '
+                                'members passes, zip() truncates the member check - every value of this type is refused by that target ("tuple needs n elements")', f)
                     if op in ('!=', '==') and 'len(' in l and 'len(' in r and o in l + r:
                         ctx.check(side_never_completes(cfg, t.id, 'T' if op == '!=' else 'F'), f'{f.qualname}:different arity is refused', a,
                                   'the unequal side raises', f'`{src(a)}`: tuples of different length are declared compatible (zip() truncates the member check)', f)
@@ -776,7 +788,7 @@ def compatibility_verdicts_refuse(ctx):
             # compared as they are: `self.min < other.min` - a comparison of converted values (grid indices of two scaled
             # types with different scales) does not count
             compared = any({l, r} == {f'self.{p}', f'{o}.{p}'} for t in cfg.nodes if t.kind == 'test' and isinstance(t.ast, ast.expr)
-                           for sub in (t.ast.values if isinstance(t.ast, ast.BoolOp) else [t.ast]) for l, op, r in compare_ops(sub))
+                           for sub in [x for x in ast.walk(resolved(t.ast, f.node)) if isinstance(x, ast.Compare)] for l, op, r in compare_ops(sub))
             if p in ('min', 'max') and not compared:
                 # numeric kinds: the end point is offered to other on every accepting path (or every integer of the range is)
                 via = [i for c in ends[p] for i in cfg.node_of(c)]
